@@ -140,6 +140,123 @@ macro_rules! placement {
     }};
 }
 
+/// Records made of endian wrappers (alignment 1 and 4, sizes 6 and 12): typed copies, element
+/// arrays and object accesses must move whole records in wire format and nothing else.
+#[repr(C, packed)]
+#[derive(Copy, Clone, Default, PartialEq, Debug)]
+struct RecP {
+    a: Le16,
+    b: Be32,
+}
+// SAFETY: plain data without padding
+unsafe impl ByteValued for RecP {}
+#[repr(C)]
+#[derive(Copy, Clone, Default, PartialEq, Debug)]
+struct RecA {
+    a: Le32,
+    b: Be32,
+    c: Be16,
+    d: Le16,
+}
+// SAFETY: plain data without padding (4 + 4 + 2 + 2 bytes, alignment 4)
+unsafe impl ByteValued for RecA {}
+
+trait Rec: ByteValued + PartialEq + std::fmt::Debug + Default {
+    fn make(k: u32) -> Self;
+    fn wire(k: u32) -> Vec<u8>;
+    const NAME: &'static str;
+}
+impl Rec for RecP {
+    fn make(k: u32) -> Self {
+        RecP { a: Le16::from((0x1234u32.wrapping_add(k * 0x101)) as u16), b: Be32::from(0xa1b2_c3d4u32.wrapping_add(k * 0x01010101)) }
+    }
+    fn wire(k: u32) -> Vec<u8> {
+        let mut v = ((0x1234u32.wrapping_add(k * 0x101)) as u16).to_le_bytes().to_vec();
+        v.extend_from_slice(&0xa1b2_c3d4u32.wrapping_add(k * 0x01010101).to_be_bytes());
+        v
+    }
+    const NAME: &'static str = "packed{Le16,Be32}";
+}
+impl Rec for RecA {
+    fn make(k: u32) -> Self {
+        RecA { a: Le32::from(0x0102_0304u32.wrapping_add(k)), b: Be32::from(0x0a0b_0c0du32.wrapping_add(k << 8)), c: Be16::from(0xbeefu16.wrapping_add(k as u16)), d: Le16::from(0x1122u16.wrapping_add((k as u16) << 4)) }
+    }
+    fn wire(k: u32) -> Vec<u8> {
+        let mut v = 0x0102_0304u32.wrapping_add(k).to_le_bytes().to_vec();
+        v.extend_from_slice(&0x0a0b_0c0du32.wrapping_add(k << 8).to_be_bytes());
+        v.extend_from_slice(&0xbeefu16.wrapping_add(k as u16).to_be_bytes());
+        v.extend_from_slice(&0x1122u16.wrapping_add((k as u16) << 4).to_le_bytes());
+        v
+    }
+    const NAME: &'static str = "repr(C){Le32,Be32,Be16,Le16}";
+}
+
+fn records<R: Rec>(ctx: &Ctx) {
+    use vm_memory::VolatileMemory;
+    let sz = size_of::<R>();
+    let mut store = [0u64; 8];
+    // SAFETY: store outlives vs
+    let all: VolatileSlice<()> = unsafe { VolatileSlice::new(store.as_mut_ptr() as *mut u8, 64) };
+    let fail = |what: &str, d: String, o: usize, l: usize, m: usize| {
+        let key = format!("C20/record {}/{}", R::NAME, what);
+        ctx.fail(&key, &d, json!({"record": R::NAME, "what": what, "slice_offset": o, "slice_len": l, "host_elements": m}));
+    };
+    for o in 0..8usize {
+        for l in 0..=(3 * sz + 3) {
+            for m in 0..=4usize {
+                ctx.case(true);
+                let whole = (l / sz).min(m);
+                // copy_from: host records into a slice whose length need not be a multiple of the record size
+                all.write_slice(&[0x5au8; 64], 0).unwrap();
+                let host: Vec<R> = (0..m as u32).map(R::make).collect();
+                let sl = all.subslice(o, l).unwrap();
+                sl.copy_from(&host);
+                let mut got = [0u8; 64];
+                all.read_slice(&mut got, 0).unwrap();
+                let mut want = [0x5au8; 64];
+                for k in 0..whole {
+                    want[o + k * sz..o + (k + 1) * sz].copy_from_slice(&R::wire(k as u32));
+                }
+                if got != want {
+                    fail("VolatileSlice::copy_from", format!("slice [{},+{}) from {} records: container {:02x?}, expected {:02x?}", o, l, m, &got[..o + l + 4], &want[..o + l + 4]), o, l, m);
+                }
+                // copy_to: the slice's whole records into host records; the rest of the host buffer stays
+                all.write_slice(&[0x5au8; 64], 0).unwrap();
+                for k in 0..3usize {
+                    if o + (k + 1) * sz <= 64 {
+                        all.write_slice(&R::wire(10 + k as u32), o + k * sz).unwrap();
+                    }
+                }
+                let mut back: Vec<R> = (0..m as u32).map(|k| R::make(100 + k)).collect();
+                let n = sl.copy_to(&mut back);
+                let ok = n == whole && (0..m).all(|k| back[k] == if k < whole { R::make(10 + k as u32) } else { R::make(100 + k as u32) });
+                if !ok {
+                    fail("VolatileSlice::copy_to", format!("slice [{},+{}) into {} records: returned {}, host records {:?}", o, l, m, n, back), o, l, m);
+                }
+                // element arrays and object accesses
+                if m >= 1 && l >= m * sz {
+                    all.write_slice(&[0x5au8; 64], 0).unwrap();
+                    if let Ok(arr) = all.get_array_ref::<R>(o, m) {
+                        for k in 0..m {
+                            arr.store(k, R::make(20 + k as u32));
+                        }
+                        all.read_slice(&mut got, 0).unwrap();
+                        let mut want = [0x5au8; 64];
+                        for k in 0..m {
+                            want[o + k * sz..o + (k + 1) * sz].copy_from_slice(&R::wire(20 + k as u32));
+                        }
+                        let loaded_ok = (0..m).all(|k| arr.load(k) == R::make(20 + k as u32));
+                        let obj: R = all.read_obj(o + (m - 1) * sz).unwrap();
+                        if got != want || !loaded_ok || obj != R::make(20 + (m - 1) as u32) {
+                            fail("VolatileArrayRef::store/load", format!("array at {} of {} records: container {:02x?}", o, m, &got[..o + m * sz + 4]), o, l, m);
+                        }
+                    }
+                }
+            }
+        }
+    }
+}
+
 fn structured64() -> impl Iterator<Item = u64> {
     const B: [u8; 6] = [0x00, 0x01, 0x7f, 0x80, 0xfe, 0xff];
     (0..6usize.pow(8)).map(|mut k| {
@@ -154,7 +271,7 @@ fn structured64() -> impl Iterator<Item = u64> {
 
 pub fn run(tier: Tier, replay: Option<String>) -> i32 {
     let ctx = crate::new_ctx("C20", tier, "exploration", &replay);
-    ctx.set_rule("all 2^16 values for Le16/Be16; all 2^32 values for Le32/Be32 in the thorough tier (quick: every value whose bytes are drawn from {00,01,7f,80,fe,ff} plus rotations of 0x01234567 and single bits); for Le64/Be64/LeSize/BeSize every value whose 8 bytes are drawn from {00,01,7f,80,fe,ff} (6^8 = 1679616 values; every 36th in the quick tier) plus all rotations of 0x0123456789abcdef and all single-bit values. Per value: native->wrapper->native, in-memory bytes == to_le_bytes/to_be_bytes, == with the represented value both ways, != with v^1, the byte-swapped and a rotated value, and (every 97th value) the bytes found in a volatile slice after write_obj at an unaligned offset. Placement sweep: every wrapper x every offset 0..=24 of an 8-aligned container (so every address class mod 8) x 20 boundary values (thorough: + all rotations and single bits) x container pre-filled with 0xa5 / 0x00 x five routes (write_obj, write_slice of as_slice, typed reference store on a volatile slice; write_obj and write on mmap-backed guest memory): the whole container must equal the fill with exactly the wire bytes at the offset, and read_obj must return the value. Non-trivial = the value is not a byte palindrome (its two byte orders differ). Distinct by construction.");
+    ctx.set_rule("all 2^16 values for Le16/Be16; all 2^32 values for Le32/Be32 in the thorough tier (quick: every value whose bytes are drawn from {00,01,7f,80,fe,ff} plus rotations of 0x01234567 and single bits); for Le64/Be64/LeSize/BeSize every value whose 8 bytes are drawn from {00,01,7f,80,fe,ff} (6^8 = 1679616 values; every 36th in the quick tier) plus all rotations of 0x0123456789abcdef and all single-bit values. Per value: native->wrapper->native, in-memory bytes == to_le_bytes/to_be_bytes, == with the represented value both ways, != with v^1, the byte-swapped and a rotated value, and (every 97th value) the bytes found in a volatile slice after write_obj at an unaligned offset. Placement sweep: every wrapper x every offset 0..=24 of an 8-aligned container (so every address class mod 8) x 20 boundary values (thorough: + all rotations and single bits) x container pre-filled with 0xa5 / 0x00 x five routes (write_obj, write_slice of as_slice, typed reference store on a volatile slice; write_obj and write on mmap-backed guest memory): the whole container must equal the fill with exactly the wire bytes at the offset, and read_obj must return the value. Records made of wrappers (a packed {Le16,Be32} of alignment 1 and a repr(C) {Le32,Be32,Be16,Le16}): typed slice copies in both directions for every slice offset 0..8 x slice length 0..=3 records+3 (so also lengths that are not a multiple of the record size) x 0..=4 host records, element arrays and object reads: whole records in wire format move, nothing else changes. Non-trivial = the value is not a byte palindrome (its two byte orders differ). Distinct by construction.");
     ctx.assume("64-bit and pointer-sized wrappers are covered by a bounded byte alphabet, not exhaustively");
     let mut fails = 0;
     for (n, s, a) in [
@@ -255,6 +372,8 @@ pub fn run(tier: Tier, replay: Option<String>) -> i32 {
         placement!(ctx, LeSize, usize, to_le_bytes, vals, &mem);
         placement!(ctx, BeSize, usize, to_be_bytes, vals, &mem);
     }
+    records::<RecP>(&ctx);
+    records::<RecA>(&ctx);
     ctx.sample(json!({"type": "Be32", "value": "0x0100007f", "bytes_expected": "01 00 00 7f", "checks": "round trip, as_slice, ==, != 0x7f000001 (byte-swapped), write_obj at offset 3 then raw bytes"}));
     ctx.sample(json!({"type": "Le64", "value": "0x80ff7f0100fe01ff", "bytes_expected": "ff 01 fe 00 01 7f ff 80"}));
     ctx.set_exhaustive(true);
